@@ -38,6 +38,8 @@ pub struct Facts {
   pub bu_cutoff: bool,
   pub bu_nested_drain: bool,
   pub bu_first_required: bool,
+  /// The report named a resource that did not change before this session.
+  pub bu_over_report: bool,
 }
 
 pub struct Acceptor<'a> {
